@@ -210,7 +210,15 @@ func (configgen *ConfigGeneratorImpl) buildGatewayListeners(builder *ListenerBui
 	cs := builder.connectionSettings
 
 	listeners := make([]*listener.Listener, 0)
-	for _, ml := range mutableopts {
+	// Build the listeners in the order of their (unique) names, not in map order, so that the
+	// order is the same in every generation.
+	listenerNames := make([]string, 0, len(mutableopts))
+	for lname := range mutableopts {
+		listenerNames = append(listenerNames, lname)
+	}
+	sort.Strings(listenerNames)
+	for _, lname := range listenerNames {
+		ml := mutableopts[lname]
 		ml.mutable.Listener = buildGatewayListener(*ml.opts, ml.transport)
 
 		// Set listener-level buffer limit from ConnectionSettings.
